@@ -69,8 +69,13 @@ impl Builder {
 
         let reader: super::DynReader = match compression_method {
             Some(CompressionMethod::Bgzf) => {
+                // Each worker is an operating system thread with its own queue slot: more of them than
+                // this cannot speed up decompression, while an absurd count cannot even be spawned
+                const MAX_WORKERS: usize = 256;
+                let workers = self.threads.min(NonZeroUsize::new(MAX_WORKERS).unwrap());
+
                 let bgzf_reader = bgzf::reader::Builder::default()
-                    .set_worker_count(self.threads)
+                    .set_worker_count(workers)
                     .build_from_reader(reader);
 
                 match format {
